@@ -8,8 +8,8 @@ GROUP = "ratio"
 LEAN_PROPS = "Dashu.Props.C04"
 LEAN_AUDIT = "Dashu.Audit.C04"
 # compositions with other groups' proved files, kept apart from the property's own theorems
-GEN_PROPS = ["Dashu.Props.C04Link", "Dashu.Props.C04Gen"]
-GEN_AUDIT = ["Dashu.Audit.C04Link", "Dashu.Audit.C04Gen"]
+GEN_PROPS = ["Dashu.Props.C04Link", "Dashu.Props.C04Gen", "Dashu.Props.C04Pow"]
+GEN_AUDIT = ["Dashu.Audit.C04Link", "Dashu.Audit.C04Gen", "Dashu.Audit.C04Pow"]
 # Tie A: lean/Dashu/Gen/RatOps.lean (macro bodies of rational/src/{add,mul,div}.rs + invocation table, vlib/extract_ratops.py) and
 # lean/Dashu/Gen/RatFns.lean (Repr-level fn bodies of repr/round/div/sign/mul/rbig.rs, vlib/extract_ratfns.py) are regenerated
 # from /repo on every run; Props/C04Gen proves the model functions equal to them
@@ -37,6 +37,15 @@ REFINED = ["Repr::reduce", "Repr::reduce_with_hint", "Repr::reduce2",
            "const_gcd_loop_regenerated)",
            "IBig::pow sign rule (negative iff negative base and odd exponent) + UBig::pow shortcuts (exp 0, base 0, base 1): ipowK / upowK, proved = ^",
            "RBig/Relaxed is_zero / is_one (Relaxed: numerator == denominator) / is_int / sign / into_parts / clone_from / ZERO ONE NEG_ONE default (driven; predicates proved)",
+           "round 6: Repr::pow WITH the allocation guards of IBig::pow (numerator, first) / UBig::pow (denominator): exp.checked_mul(shift), the "
+           "Buffer::allocate of the final << and of pow_word_base / pow_dword_base's result buffer (Model/Ratio/PowGuard.powChecked, driven as qp.pow for "
+           "every usize exponent on components ±2^s, odd word / double-word bases at their MAX_CAPACITY boundary); Props/C04Pow: the guard IS C01's "
+           "powAllocPanics (pow_guard_is_proved_class), powChecked IS ibigPowGuarded / ubigPowGuarded composed by value, same panic in the same order "
+           "(pow_checked_over_proved_kernels), result reduced and exact or the documented allocation panic, nothing else (rbig_pow_checked_exact, "
+           "pow_checked_cases), on the checked_mul branch the exact power has more than 2^64 bits (pow_shift_overflow_panics); register programs with the guarded pow (runG, driven as qp.prog): a guarded run is the plain run or the plain run of a prefix followed by the "
+           "allocation panic of a pow step, history invariant and values carry over (runG_cases, history_invariant_guarded, history_values_guarded); "
+           "Relaxed likewise and Relaxed = RBig whenever both return (relaxed_pow_checked_exact, relaxed_pow_checked_equals_rbig); the panic is never spurious: on EVERY branch of "
+           "the guard (64-bit words) a component of the exact power has at least 2^62 bits (pow_panics_only_beyond_memory, rbig_pow_exact_or_beyond_memory)",
            "histories: Relaxed = RBig over whole programs (history_relaxed_equals_rbig, history_canonicalize_equals_rbig), reduce2 invariant over "
            "Relaxed-only histories (history_relaxed_reduce2_invariant)"]
 FRONTIER = ["dashu-int kernels used by the rational layer are taken at their contracts, and EVERY one of them is now linked by theorem (Props/C04Link, "
@@ -46,8 +55,10 @@ FRONTIER = ["dashu-int kernels used by the rational layer are taken at their con
             "rem_euclid with their zero-divisor panics = C02 (div_contracts_are_proved_kernels); trailing_zeros and >> = C09 "
             "(bit_contracts_are_proved_kernels). What stays trusted is only that composition is by value (SRepr.ofInt / ofNat wrappers), not a re-execution of "
             "the word-level kernels inside the rational driver (that would make the driver quadratically slower without adding a statement)",
-            "pow with a base other than 0, 1, -1 and an exponent beyond memory (even bases: exp.checked_mul(shift) / shl allocation panic) is not driven here: "
-            "the result size guard is C01's u_pow_checked_exact / C16's transcription",
+            "pow results between ~10^6 bits and the MAX_CAPACITY guard (a component 2^s with 10^6 < exp*s < 2^64 - 64, or an odd part > 1 with an exponent "
+            "below its up-front buffer guard): powChecked states the exact power and Props/C04Pow covers these inputs, but neither side can be EXECUTED "
+            "(the real code would really allocate up to 2^61 bytes / compute for hours; the outcome depends on the allocator) — kept, same reason as C01's entry; "
+            "the older `prog` op still runs the unguarded pow (its generator keeps exponents small); `qp.prog` runs the guarded one",
 ]
 RULE = ("operands n/d built from size classes {tiny, 1 word, 2 words (inline boundary), 3-6 words, 10-40 words} x bit patterns "
         "x signs, then related to each other the way the code branches: denominators coprime (g = 1 shortcut) or sharing a "
@@ -60,6 +71,13 @@ RULE = ("operands n/d built from size classes {tiny, 1 word, 2 words (inline bou
         "machine boundary (0, 1, W-1, W, W+1, 2W, 2^31, 2^32-1, 2^32, 2^32+k, 2^63±k, MAX-k, k ≤ 130) on the bases 0, 1, -1 of both types, alone and inside "
         "programs whose later steps see the parity-dependent sign; pow of small bases with exponents across every shortcut of integer pow; "
         "qp.preds (sign/is_zero/is_one/is_int/into_parts/clone_from, values ±1 stored as n/n, zero numerators, integers, zero denominators) and qp.consts; "
+        "round 6 (qp.pow, Repr::pow with the integer allocation guards): a component ±2^s (s in 25 fixed shifts of every representation class, thorough +60 "
+        "random) as numerator over 1 / an odd, or as denominator under ±1 / an odd, with exp*s on both sides of 2^64 (exp = ceil(2^64/s) + j: a wrapped product "
+        "would be small), at the MAX_CAPACITY boundary of the final shift (exp*s >= 64*MAX_CAPACITY), at usize::MAX - k; odd word / double-word components at "
+        "their result-buffer boundary wexp*MAX_CAPACITY (+1, +wexp) / MAX_CAPACITY/2 + 1; all extreme usize exponents; the cheap neighbours (exponents 0..5, "
+        "wexp, 2*wexp ± 1) of the same operands; Relaxed pairs with a common odd factor (9/3, 15/5, …: the guard sees the stored components); qp.prog: register programs whose chain register stays "
+        "±2^s / ±1/2^s under neg/inv/abs/sqr/cubic/mulsign, interleaved arithmetic, then pow with the exponent placed relative to the CURRENT shift (both sides of "
+        "exp*s = 2^64, the MAX_CAPACITY boundary, usize::MAX-k, small), a second guarded pow on a cheap result, steps after a panic that must not execute; inputs on which the code would really allocate are filtered by an outcome oracle (upow_outcome); "
         "E2: for k of EVERY bit length 1..320 (thorough: each length x3; quick: the word edges + 30 sampled lengths): exact and just-off ties of % and "
         "round/floor/ceil/trunc at ±(k + 1/2), rem_euclid at multiples ±1, components 2^e, 2^e ± 1, common powers of two of every count (reduce2 shifts "
         "across word boundaries), gcd hint g = k with the numerator sum cancelling all/part/none of it, cross factors k for mul/div and the mixed integer "
@@ -87,7 +105,7 @@ READY = True
 
 
 def nontrivial(c):
-    if c.op == "prog":
+    if c.op in ("prog", "qp.prog"):
         return len(c.args) - c.args.index(";") - 1 >= 4 if ";" in c.args else False
     for a in c.args:
         if a.startswith("q:"):
@@ -375,8 +393,198 @@ def extreme_exponents(rng, n):
     return out
 
 
+# ---------------------------------------------------------------- round 6: pow with the allocation guards of IBig::pow / UBig::pow
+
+BUF_MAX_CAPACITY = UMAX // 64          # Buffer::MAX_CAPACITY = usize::MAX / WORD_BITS
+
+
+def max_exp_in_word(b):
+    e, p = 1, b
+    while p * b < (1 << 64):
+        e += 1; p *= b
+    return e
+
+
+def upow_outcome(b, e, maxbits):
+    """what UBig::pow(b, e) does, decided without computing it (mirrors integer/src/pow.rs + shift_ops.rs shl +
+    Buffer::allocate): 'panic' = the documented allocation panic raised before anything is allocated, 'cheap' = a result
+    below maxbits, None = the code would really try to allocate / compute an astronomically large number (not driven:
+    the outcome depends on the allocator)"""
+    if e == 0 or b <= 1:
+        return "cheap"
+    s = (b & -b).bit_length() - 1
+    odd = b >> s
+    if e >= 3 and odd != 1:
+        if odd < (1 << 64):
+            w = max_exp_in_word(odd)
+            if odd & (odd - 1) != 0 and odd > 2 and e >= 2 * w and e // w + 1 > BUF_MAX_CAPACITY:
+                return "panic"
+        elif odd < (1 << 128) and 2 * e > BUF_MAX_CAPACITY:
+            return "panic"
+    if odd.bit_length() * e > maxbits and odd != 1:
+        return None
+    if s == 0:
+        return "cheap"
+    n = e * s
+    if n > UMAX:
+        return "panic" if odd == 1 else None
+    if odd == 1:
+        if n <= 127:
+            return "cheap"
+        if n // 64 + 1 > BUF_MAX_CAPACITY:
+            return "panic"
+        return "cheap" if n <= maxbits else None
+    return "cheap" if n + odd.bit_length() * e <= maxbits else None
+
+
+def qpow_outcome(n, d, e, maxbits):
+    """Repr::pow: numerator first (struct literal order), then the denominator"""
+    a = upow_outcome(abs(n), e, maxbits)
+    if a != "cheap":
+        return a
+    return upow_outcome(d, e, maxbits)
+
+
+def guarded_pow_cases(rng, tier):
+    """classes from the branch conditions of UBig::pow / IBig::pow under Repr::pow: a component 2^s (numerator ±2^s/odd, or
+    denominator odd/2^s; s of every representation class) with exp*s on both sides of 2^64 (checked_mul fails; a wrapped
+    product would be SMALL: exp = ceil(2^64/s) + j) and at the MAX_CAPACITY boundary of the final shift
+    (exp*s >= 64*MAX_CAPACITY); odd parts > 1 (word base: exp/wexp + 1 words, double-word base: 2*exp words) at their
+    MAX_CAPACITY boundary; every extreme usize exponent; the other component 1, odd small, or itself panicking; cheap
+    neighbours (small exponents) of the same operands.  Inputs where the code would really allocate are filtered out."""
+    quick = tier == "quick"
+    maxbits = 100_000 if quick else 1_000_000
+    shifts = [1, 2, 3, 4, 7, 8, 16, 31, 32, 33, 62, 63, 64, 65, 100, 127, 128, 129, 130, 191, 192, 193, 200, 256, 1000]
+    if not quick:
+        shifts += [rng.randrange(1, 400) for _ in range(60)]
+    exts = extreme_exponents(rng, 6 if quick else 40)
+    B = 1 << 64
+    odds = [3, 5, 7, 255, (1 << 16) + 1, (1 << 32) - 1, (1 << 32) + 1, B - 1, B + 1, B * B - 1, 3 * B + 1]
+    for s in shifts:
+        cand = set(rng.sample(exts, 8 if quick else 20)) | {0, 1, 2, 3, 5}
+        c = -(-(1 << 64) // s)
+        cand |= {c + j for j in (0, 1, 2, rng.randrange(3, 200))}
+        lim = -(-(BUF_MAX_CAPACITY * 64) // s)
+        cand |= {lim, lim + 1, UMAX, UMAX - rng.randrange(1, 64)}
+        for e in sorted(x for x in cand if 0 <= x <= UMAX):
+            r = rng.random()
+            other = 1 if r < 0.5 else rng.choice([3, 5, 7, 255, (1 << 32) + 1])
+            sg = rng.choice([1, -1])
+            k = rng.choice("RX")
+            for (n, d) in ((sg * (1 << s), other), (sg * other, 1 << s)):
+                if qpow_outcome(n, d, e, maxbits) is not None:
+                    yield Case("qp.pow", [q(n, d, k), "d:%d" % e])
+    for o in odds:
+        cand = set(rng.sample(exts, 6 if quick else 20)) | {0, 1, 2, 3, 4}
+        if o < B:
+            w = max_exp_in_word(o)
+            cand |= {w - 1, w, 2 * w - 1, 2 * w, 2 * w + 1, w * BUF_MAX_CAPACITY, w * BUF_MAX_CAPACITY + 1, w * (BUF_MAX_CAPACITY + 1)}
+        else:
+            cand |= {BUF_MAX_CAPACITY // 2 + 1, BUF_MAX_CAPACITY // 2 + 2, BUF_MAX_CAPACITY + 1}
+        for e in sorted(x for x in cand if 0 <= x <= UMAX):
+            s = rng.choice([0, 0, 1, 5, 64, 70])
+            sg = rng.choice([1, -1])
+            k = rng.choice("RX")
+            for (n, d) in ((sg * (o << s), 1), (sg, o << s), (sg * o, 1 << max(s, 1)), (sg * (1 << max(s, 1)), o)):
+                if qpow_outcome(n, d, e, maxbits) is not None:
+                    yield Case("qp.pow", [q(n, d, k), "d:%d" % e])
+    # Relaxed only: stored pairs with a common ODD factor (9/3, 15/5, ...): the guard sees the stored components, not the value
+    for c in (3, 5, 255, (1 << 32) + 1):
+        for o in (3, 7, 255, (1 << 31) - 1):
+            n, d = o * c, c
+            cand = {0, 1, 2, 3, UMAX, UMAX - rng.randrange(1, 130)}
+            for b in (n, d, o):
+                if b < B:
+                    w = max_exp_in_word(b)
+                    cand |= {w * BUF_MAX_CAPACITY, w * BUF_MAX_CAPACITY + 1, w * (BUF_MAX_CAPACITY + 1)}
+                else:
+                    cand |= {BUF_MAX_CAPACITY // 2 + 1, BUF_MAX_CAPACITY + 1}
+            for e in sorted(x for x in cand if 0 <= x <= UMAX):
+                sg = rng.choice([1, -1])
+                for (nn, dd) in ((sg * n, d), (sg * d, n)):
+                    if qpow_outcome(nn, dd, e, maxbits) is not None:
+                        yield Case("qp.pow", [q(nn, dd, "X"), "d:%d" % e])
+    # the bases 0, ±1 at every extreme exponent through the guarded op as well (no panic: shortcuts of pow_word_base)
+    for e in exts:
+        b = rng.choice([(0, 1), (1, 1), (-1, 1)])
+        yield Case("qp.pow", [q(b[0], b[1], rng.choice("RX")), "d:%d" % e])
+    # random operands, small exponents: the guarded op agrees with the plain one
+    for _ in range(60 if quick else 2000):
+        a, b = frac(rng, "quick")
+        e = rng.choice([0, 1, 2, 3, 4, 5, 8, 17, 40, 41, 80, 81])
+        if qpow_outcome(a, b, e, maxbits) == "cheap" and max(abs(a).bit_length(), b.bit_length()) * e <= maxbits:
+            yield Case("qp.pow", [q(a, b, rng.choice("RX")), "d:%d" % e])
+
+
+def guarded_prog_cases(rng, tier):
+    """register programs (op qp.prog, model side runG) in which a `pow` step meets the allocation guards: a chain register that
+    stays ±2^s or ±1/2^s under neg / inv / abs / sqr / cubic / mulsign (stored pair predictable for RBig and Relaxed), interleaved
+    arithmetic on another register, then `pow` with the exponent placed relative to the CURRENT shift of the chain register
+    (both sides of 2^64 = exp*s, the MAX_CAPACITY boundary, usize::MAX - k, or small); after a cheap power the program goes on
+    with the result (incl. a second guarded pow), after a panic the remaining steps must not execute."""
+    quick = tier == "quick"
+    maxbits = 50_000 if quick else 400_000
+    for _ in range(120 if quick else 3000):
+        k = rng.choice("RX")
+        s0 = rng.choice([1, 2, 3, 7, 31, 32, 33, 63, 64, 65, 127, 128, 129, 200])
+        sg = rng.choice([1, -1])
+        cur = Fraction(sg * (1 << s0)) if rng.random() < 0.5 else Fraction(sg, 1 << s0)
+        a, b = frac(rng, "quick")
+        if bits(Fraction(a, b)) > 300:
+            a, b = signed(rng, rng.getrandbits(70)), rng.getrandbits(66) | 1
+        toks = [q(cur.numerator, cur.denominator, k), q(a, b, k)]
+        other = Fraction(a, b)
+        nregs, ci, oi = 2, 0, 1
+        steps = []
+        stopped = False
+        for _ in range(rng.randrange(0, 4)):
+            op = rng.choice(["neg", "inv", "abs", "sqr", "cubic", "mulsign"])
+            if op in ("sqr", "cubic") and bits(cur) > 700:
+                op = "inv"
+            if op == "mulsign":
+                sgn = rng.choice("+-")
+                steps.append("mulsign,%d,%s" % (ci, sgn)); cur = cur if sgn == "+" else -cur
+            else:
+                steps.append("%s,%d" % (op, ci))
+                cur = {"neg": -cur, "inv": 1 / cur, "abs": abs(cur), "sqr": cur * cur, "cubic": cur * cur * cur}[op]
+            ci = nregs; nregs += 1
+            if rng.random() < 0.5 and bits(other) < 3000:
+                o2 = rng.choice(["add", "sub", "mul"])
+                steps.append("%s,%d,%d" % (o2, oi, ci)); other = sim_bin(o2, other, cur)
+                oi = nregs; nregs += 1
+        for rnd in range(2):
+            sh = max(abs(cur.numerator), cur.denominator).bit_length() - 1
+            if sh == 0:
+                break
+            c = -(-(1 << 64) // sh)
+            lim = -(-(BUF_MAX_CAPACITY * 64) // sh)
+            e = rng.choice([c, c + 1, c + rng.randrange(2, 200), lim, lim + 1, UMAX, UMAX - rng.randrange(1, 130),
+                            0, 1, 2, 3, 5, rng.choice(extreme_exponents(rng, 4))])
+            if e > UMAX:
+                e = UMAX
+            out = qpow_outcome(cur.numerator, cur.denominator, e, maxbits)
+            if out is None:
+                e = rng.choice([0, 1, 2, 3]); out = "cheap"
+            steps.append("pow,%d,%d" % (ci, e))
+            if out == "panic":
+                stopped = True
+                break
+            cur = cur ** e
+            ci = nregs; nregs += 1
+            if bits(other) < 3000:
+                o2 = rng.choice(["add", "sub", "mul"])
+                steps.append("%s,%d,%d" % (o2, ci, oi)); other = sim_bin(o2, cur, other)
+                oi = nregs; nregs += 1
+        if stopped:
+            steps += ["add,0,1", "neg,0"]          # never executed
+        yield Case("qp.prog", toks + [";"] + steps)
+
+
 def generate(rng, tier):
     quick = tier == "quick"
+    # ---- round 6: Repr::pow with the allocation guards of the integer powers (qp.pow)
+    yield from guarded_pow_cases(rng, tier)
+    yield from guarded_prog_cases(rng, tier)
     # ---- E1: extreme usize exponents of pow on the bases whose powers are cheap (0, 1, -1; RBig and Relaxed)
     for n in extreme_exponents(rng, 40 if quick else 600):
         base = rng.choice([(0, 1), (1, 1), (-1, 1), (-1, 1)])
@@ -549,10 +757,12 @@ LEVEL_TEXT = ("Machine-checked Lean 4 theorems, for all integers (no size bound)
               "exact result (incl. the gcd-hint reduction of addition and the cross-gcd cancellation of mul/div), panics with "
               "DivideByZero exactly on zero divisors, Relaxed operations return the same values and reduce2 strips exactly the "
               "common power of two; history theorems over register programs (invariants, values, Relaxed = RBig over whole histories, "
-              "reduce2 fixed point); sign corners of pow/inv; predicates. Tie A: all 24 operator macro bodies of rational/src/{add,mul,div}.rs, "
+              "reduce2 fixed point); sign corners of pow/inv; predicates; pow with the allocation panics of the integer powers under it "
+              "(exact reduced result, or the documented allocation panic and then a component of the exact power has at least 2^62 bits; the guard is C01's proved "
+              "panic class, composed by value with C01's mirrored kernels — Props/C04Pow). Tie A: all 24 operator macro bodies of rational/src/{add,mul,div}.rs, "
               "their 48 invocations and 22 Repr-level function bodies (reductions, rounding, inverse, sign, powers, constructors incl. the const Euclid loop) are "
               "regenerated from /repo on every run and proved equal to the model functions for all inputs (Props/C04Gen). Tie B: differential execution (numerator()/denominator() as stored, all ownership/assign call forms, "
-              "programs of 1-40 steps feeding results back, extreme usize exponents).")
+              "programs of 1-40 steps feeding results back, extreme usize exponents incl. both sides of every allocation guard of pow).")
 LEVEL_NOTE = ("Trusted: Lean kernel; axioms propext/Classical.choice/Quot.sound; the correspondence harness and generators "
               "(sampling) for the tie model<->code; dashu-int kernels (gcd, mul, div, shifts, trailing_zeros) are taken at their "
               "contracts here and are the subject of C01/C02/C09/C12.")
